@@ -260,9 +260,9 @@ def _iface_change(r, md):
     s = json.dumps(md["insts"])
     unused = [p for p in md["ports"] if json.dumps(["sig", p[0]]) not in s]
     u = r.random()
-    if unused and u < 0.6:
+    if unused and u < 0.8:
         p = r.choice(unused)
-        if r.random() < 0.5:
+        if u < 0.25:
             md["ports"].remove(p)
             return "port-dropped"
         p[1] += r.choice([1, 2])
@@ -345,6 +345,8 @@ def _hist_corpus():
     # fixes/C06-2: the revised child is valid but has another port list: the PARENT, elaborated before, no longer fits
     out.append(("revised-child-other-ports", mk(child("ChildV2", [ri("r1", [["p", ["sig", "p"]], ["n", ["sl", ["sig", "q"], ["i", 2]]]])],
                                                       ports=[["p", 1, "inout"], ["q", 3, "inout"], ["r", 1, "inout"]]))))
+    out.append(("revised-child-other-width", mk(child("ChildV2", [ri("r1", [["p", ["sig", "p"]], ["n", ["sl", ["sig", "q"], ["i", 2]]]])],
+                                                      ports=[["p", 1, "inout"], ["q", 3, "inout"]]))))
     return out
 
 
@@ -777,7 +779,7 @@ def run(run, tier, seed, replay=None):
                            code=code, failing=len(hbad)), found_input=bool(outs[ji]["pkgs"]))
     hstat = dict(jobs=0, by_mode={}, exported_after_retarget=0, refused_after_retarget=0, after_elaboration=0,
                  late_needs_elab_exported=0, late_arrays_exported=0, fault_refused=0, fault_exported=0, iface_refused=0, iface_exported=0,
-                 back_exported=0)
+                 back_exported=0, iface_refused_by_kind={})
     for ji in hj:
         info = jobs[ji].get("hist")
         log = outs[ji].get("log")
@@ -803,6 +805,8 @@ def run(run, tier, seed, replay=None):
                 hstat["fault_exported" if ok else "fault_refused"] += 1
             if info["mode"] == "iface":
                 hstat["iface_exported" if ok else "iface_refused"] += 1
+                if not ok:
+                    hstat["iface_refused_by_kind"][info["iface"]] = hstat["iface_refused_by_kind"].get(info["iface"], 0) + 1
             if len(log) > first_rt + 3 and log[first_rt + 3]["err"] is None:
                 hstat["back_exported"] += 1
     hstat["packages"] = sum(1 for i in range(len(pk)) if jobs[owner[i]]["source"] == "history" and not jobs[owner[i]].get("held"))
@@ -826,7 +830,8 @@ def run(run, tier, seed, replay=None):
     if replay is None:
         targets = [("history:exported-after-retarget", hstat["exported_after_retarget"], 20), ("history:late-needs-elaboration", hstat["late_needs_elab_exported"], 10),
                    ("history:late-arrays", hstat["late_arrays_exported"], 3), ("history:fault-refused", hstat["fault_refused"], 15),
-                   ("history:iface-refused", hstat["iface_refused"], 5), ("history:back-exported", hstat["back_exported"], 5),
+                   ("history:iface-refused", hstat["iface_refused"], 5), ("history:iface-resized-refused", hstat["iface_refused_by_kind"].get("port-resized", 0), 2),
+                   ("history:iface-added-refused", hstat["iface_refused_by_kind"].get("port-added", 0), 1), ("history:back-exported", hstat["back_exported"], 5),
                    ("held:refused", hk["refused"], 30), ("held:alias", hk["by_what"].get("alias", 0), 10), ("held:rename", hk["by_what"].get("rename", 0), 10),
                    ("held:classbody", hk["classbody"], 5), ("held:instances", hk["by_kind"].get("inst", 0), 15),
                    ("held:replace-exported", hk["exported_consistent"], 3)]
